@@ -354,10 +354,27 @@ def r5(ctx):
     ctx.ob("R5", "seek moves forward only and refuses to go backward", ok, func=sk, node=sk.node, instance="seek:forward-only")
     rd = p.func(f"{MOD}.TellableStreamWrapper.read")
     lp = [x for x in rd.body_nodes() if isinstance(x, ast.While)]
-    ret = [x for x in rd.body_nodes() if isinstance(x, ast.Return)]
-    RB = unparse(ret[0].value) if len(ret) == 1 and isinstance(ret[0].value, ast.Name) else "buf"
-    acc = [x for x in rd.body_nodes() if isinstance(x, ast.AugAssign) and unparse(x.target) == RB and isinstance(x.op, ast.Add)]
-    ok = bool(lp) and bool(acc) and len(ret) == 1 and unparse(ret[0].value) == RB
+    ret = [x for x in rd.body_nodes() if isinstance(x, ast.Return) and x.value is not None]
+    # chunks read in the loop are accumulated (`buf += chunk`, or `parts.append(chunk)` joined afterwards) and the
+    # accumulation is what is returned
+    chunks = set()
+    for c in _underlying_reads(rd):
+        cur, par = c, getattr(c, "_parent", None)
+        while isinstance(par, (ast.Await, ast.IfExp)):
+            cur, par = par, getattr(par, "_parent", None)
+        if isinstance(par, ast.Assign) and isinstance(par.targets[0], ast.Name) and any(isinstance(a, ast.While) for a in ancestors(c)):
+            chunks.add(par.targets[0].id)
+        elif isinstance(par, ast.NamedExpr) and any(isinstance(a, ast.While) for a in ancestors(c)):
+            chunks.add(par.target.id)
+    accs = set()
+    for x in rd.body_nodes():
+        in_loop = any(isinstance(a, ast.While) for a in ancestors(x))
+        if in_loop and isinstance(x, ast.AugAssign) and isinstance(x.op, ast.Add) and isinstance(x.target, ast.Name) and isinstance(x.value, ast.Name) and x.value.id in chunks:
+            accs.add(x.target.id)
+        if in_loop and isinstance(x, ast.Call) and isinstance(x.func, ast.Attribute) and x.func.attr in ("append", "extend") and isinstance(x.func.value, ast.Name) \
+                and x.args and isinstance(x.args[0], ast.Name) and x.args[0].id in chunks:
+            accs.add(x.func.value.id)
+    ok = bool(lp) and bool(accs) and len(ret) == 1 and any(_derives(rd, ret[0].value, a) or (isinstance(ret[0].value, ast.Name) and ret[0].value.id == a) for a in accs)
     ctx.ob("R5", "TellableStreamWrapper.read loops until the requested size or EOF and returns everything it read", ok, func=rd, node=rd.node, instance="tellable:loop")
 
 
